@@ -672,4 +672,14 @@ theorem shapeRun_closedRun :
         simpa [closedStep] using this
     · cases h
 
+theorem incCmds_total (ks : List CmdKind) : ∀ x ∈ incCmds ks, x.total := by
+  induction ks with
+  | nil => intro x hx; simp [incCmds] at hx
+  | cons k ks ih =>
+    intro x hx
+    cases k <;> simp only [incCmds, List.mem_cons] at hx <;> rcases hx with hx | hx
+    all_goals first
+      | exact ih x hx
+      | (subst hx; simp [Cmd.total])
+
 end EngineModel.Proofs.Txn
